@@ -15,7 +15,7 @@ from lexgen import *
 def main():
     c = Check("C15")
     c.level = "model_checking"
-    c.assumptions += ["the lexeme pool (213 descriptors) stands for the lexical grammar: every keyword/type/punctuation, one representative per number/identifier/string/comment shape",
+    c.assumptions += ["the lexeme pool (217 descriptors) stands for the lexical grammar: every keyword/type/punctuation, one representative per number/identifier/string/comment shape",
                       "Unicode tables (unicode-xid) trusted; CRLF after line-terminated lexemes not exercised",
                       "a version header is followed by ';' or white space (never ends the input)"]
     build_harness()
